@@ -62,3 +62,16 @@ pub broadcast axiom fn axiom_string_eq(a: &String, b: &String)
     ensures #[trigger] <String as vstd::std_specs::cmp::PartialEqSpec<String>>::eq_spec(a, b) == (a@ == b@);
 pub broadcast axiom fn axiom_string_from_str(v: &str)
     ensures (#[trigger] <String as vstd::std_specs::convert::FromSpec<&str>>::from_spec(v))@ == v@;
+
+// decomposition field of a UnicodeData row (ucd-parse): formatting tag, number of code points, the code points
+#[derive(Clone, Copy, Debug, PartialEq, Eq)]
+pub enum UnicodeDataDecompositionTag { Font, NoBreak, Initial, Medial, Final, Isolated, Circle, Super, Sub, Vertical, Wide, Narrow, Small, Square, Fraction, Compat }
+pub assume_specification[ <UnicodeDataDecompositionTag as PartialEq>::eq ](a: &UnicodeDataDecompositionTag, b: &UnicodeDataDecompositionTag) -> (r: bool)
+    ensures r == (*a == *b);
+#[derive(Clone, Debug, PartialEq, Eq)]
+pub struct UnicodeDataDecomposition {
+    pub tag: Option<UnicodeDataDecompositionTag>,
+    pub len: usize,
+    pub mapping: [Codepoint; 18],
+}
+impl Default for UnicodeDataDecomposition { #[verifier::external_body] fn default() -> Self { unimplemented!() } }
